@@ -51,7 +51,10 @@ pub fn check_log(h: &Hist) -> Result<(bool, Vec<&'static str>), Failure> {
     let lives = crate::model::lives(log);
     for l in &lives {
         // invalid app set: the machine never starts at all (continuous operation)
-        let invalid = h.script.apps.iter().any(|a| a.id.is_empty() || a.version.iter().all(|c| *c == 0));
+        let invalid = h.script.apps.iter().any(|a| a.id.is_empty() || a.version.iter().all(|c| *c == 0)) || (h.script.spoil_app_after_start.is_some() && !l.oneshot);
+        if h.script.spoil_app_after_start.is_some() && !l.oneshot {
+            classes.push("app_set_invalidated_between_start_and_first_poll");
+        }
         if invalid && !l.oneshot {
             nontrivial = true;
             classes.push("invalid_app_set");
@@ -216,7 +219,9 @@ pub fn case(t: &mut Tape, ctx: &CaseCtx) -> CaseResult {
         1 => {
             let p = Profile { negative_decisions: (1, 3), offer_w: 6, outcome_w: [12, 1, 1, 1, 2, 1, 1], ..Default::default() };
             let mut s = gen_script(t, &p);
-            if t.chance(1, 8) {
+            if t.chance(1, 10) {
+                s.spoil_app_after_start = Some((t.choose(s.apps.len()), t.choose(2) as u8));
+            } else if t.chance(1, 8) {
                 let i = t.choose(s.apps.len());
                 match t.choose(3) {
                     0 => s.apps[i].id = String::new(),
